@@ -36,6 +36,7 @@ static void put(vh::Json& j, const std::string& k, const QA& a) { j.arr(k.c_str(
 struct Cfg {
   int N = 0, R = 0, span = 1, maxDelta = 0, mash = 1, tofMash = 0, maxT = 0, numTang = 0;
   bool ge = false, arc = false;
+  double dtilt = 0;          // azimuthal offset added by the driver through set_azimuthal_angle_offset (an input)
   std::string geom = "Cylindrical";
 };
 
@@ -52,9 +53,11 @@ static void emit_config(vh::Trace& tr, const Cfg& c, const ProjDataInfoCylindric
       .num("numViews", pdi.get_num_views()).num("minView", pdi.get_min_view_num())
       .num("minTof", pdi.get_min_tof_pos_num()).num("maxTof", pdi.get_max_tof_pos_num()).arr2("segs", segs)
       .num("maxBins", sc.get_max_num_non_arccorrected_bins())
-      .num("tilt6", std::llround(sc.get_intrinsic_azimuthal_tilt() * 1e6))
-      .num("radius3", std::llround(sc.get_effective_ring_radius() * 1e3))
-      .num("spacing3", std::llround(sc.get_ring_spacing() * 1e3));
+      // parameters of the object's CURRENT state (they may have been changed through its setters)
+      .num("tilt6", std::llround((sc.get_intrinsic_azimuthal_tilt() + c.dtilt) * 1e6))
+      .num("radius3", std::llround(pdi.get_ring_radius() * 1e3))
+      .num("spacing3", std::llround(pdi.get_ring_spacing() * 1e3))
+      .num("bedh3", std::llround(pdi.get_bed_position_horizontal() * 1e3)).num("bedv3", std::llround(pdi.get_bed_position_vertical() * 1e3));
   if (c.arc) j.num("bin3", std::llround(static_cast<const ProjDataInfoCylindricalArcCorr&>(pdi).get_tangential_sampling() * 1e3));
   tr.emit(j);
 }
@@ -71,9 +74,9 @@ static void record_row(vh::Trace& tr, const Cfg& c, const ProjDataInfoCylindrica
   const Scanner& sc = *pdi.get_scanner_ptr();
   const bool discrete = c.geom != "Cylindrical";          // Blocks / Generic: fixed-point observations only
   const double uA = PI / c.N;                             // half an unmashed view step
-  const double uM = sc.get_ring_spacing() / 4.0;          // quarter ring spacing
-  const double tilt = sc.get_intrinsic_azimuthal_tilt();
-  const double Reff = sc.get_effective_ring_radius();
+  const double uM = pdi.get_ring_spacing() / 4.0;         // quarter ring spacing (of the data's current sampling)
+  const double tilt = sc.get_intrinsic_azimuthal_tilt() + c.dtilt;
+  const double Reff = pdi.get_ring_radius();
   const double uS = c.arc ? static_cast<const ProjDataInfoCylindricalArcCorr&>(pdi).get_tangential_sampling() : 0.0;
   const int t0 = pdi.get_min_tangential_pos_num(), t1 = pdi.get_max_tangential_pos_num();
   const Bin b0(seg, view, ax, 0, tof);
@@ -103,7 +106,8 @@ static void record_row(vh::Trace& tr, const Cfg& c, const ProjDataInfoCylindrica
       fm.push_back(std::llround(pdi.get_m(b) * 1e3));
       fth.push_back(std::llround(pdi.get_tantheta(b) * 1e6));
       // the same in-plane line in the opposite segment / at the mirrored axial position
-      fthm.push_back(std::llround(pdi.get_tantheta(Bin(-seg, view, ax, tp, tof)) * 1e6));
+      if (-seg >= pdi.get_min_segment_num() && -seg <= pdi.get_max_segment_num())
+        fthm.push_back(std::llround(pdi.get_tantheta(Bin(-seg, view, ax, tp, tof)) * 1e6));
       fmm.push_back(std::llround(pdi.get_m(Bin(seg, view, pdi.get_max_axial_pos_num(seg) + pdi.get_min_axial_pos_num(seg) - ax, tp, tof)) * 1e3));
       continue;
     }
@@ -294,8 +298,14 @@ static void run_cfg(vh::Trace& tr, Cfg c, const std::string& name, long budget, 
   {
     bool changed = false;
     if (vh::threw([&] {
+          // symmetric and ASYMMETRIC segment ranges (more negative than positive segments, fewer, ending at 0)
           const int ms = p->get_max_segment_num();
-          if (ms >= 1) { p->reduce_segment_range(-(ms - 1), ms - 1); changed = true; }
+          if (ms >= 1) {
+            const int how = rng.range(0, 4);
+            const int lo = how == 0 ? -(ms - 1) : how == 1 ? -ms : how == 2 ? -std::max(0, ms - 2) : how == 3 ? -ms : 0;
+            const int hi = how == 0 ? ms - 1 : how == 1 ? std::max(0, ms - 2) : how == 2 ? ms : how == 3 ? 0 : ms;
+            p->reduce_segment_range(lo, hi); changed = true;
+          }
           const int t0 = p->get_min_tangential_pos_num(), t1 = p->get_max_tangential_pos_num();
           if (t0 + 1 <= 0 && t1 - 2 >= 0) { p->set_min_tangential_pos_num(t0 + 1); p->set_max_tangential_pos_num(t1 - 2); changed = true; }
         }, &m2)) { tr.emit(vh::Json("DriverError").str("name", name).str("msg", m2)); return; }
@@ -319,6 +329,24 @@ static void run_cfg(vh::Trace& tr, Cfg c, const std::string& name, long budget, 
               if (tm != p->get_tof_mash_factor() && tm <= c.maxT && (c.maxT / tm) % 2 == 1) { p->set_tof_mash_factor(tm); c.tofMash = tm; changed = true; break; }
         }, &m2)) { tr.emit(vh::Json("DriverError").str("name", name).str("msg", m2)); return; }
     if (changed && vh::threw([&] { record_config(tr, c, *p, name, b2, rng, "views-tof"); }, &m2)) tr.emit(vh::Json("DriverError").str("name", name).str("msg", m2));
+  }
+  // C: the setters of the physical parameters, on the used object: ring spacing, bed position (no coordinate depends
+  // on it), and for arc-corrected data tangential sampling, azimuthal offset, ring radius
+  if (c.geom == "Cylindrical") {
+    if (vh::threw([&] {
+          p->set_ring_spacing(p->get_ring_spacing() * rng.pick(std::vector<float>{ 1.25F, 0.5F, 2.F }));
+          p->set_bed_position_horizontal(12.5F); p->set_bed_position_vertical(-7.F);
+          if (c.arc) {
+            auto* pa = static_cast<ProjDataInfoCylindricalArcCorr*>(p);
+            pa->set_tangential_sampling(pa->get_tangential_sampling() * rng.pick(std::vector<float>{ 0.75F, 1.5F }));
+            const float d = rng.pick(std::vector<float>{ 0.0625F, -0.03125F });
+            p->set_azimuthal_angle_offset(p->get_azimuthal_angle_offset() + d); c.dtilt += d;
+            VectorWithOffset<float> radii(p->get_min_view_num(), p->get_max_view_num());
+            radii.fill(p->get_ring_radius() * 1.125F);
+            p->set_ring_radii_for_all_views(radii);
+          }
+        }, &m2)) { tr.emit(vh::Json("DriverError").str("name", name).str("msg", m2)); return; }
+    if (vh::threw([&] { record_config(tr, c, *p, name, b2, rng, "params"); }, &m2)) tr.emit(vh::Json("DriverError").str("name", name).str("msg", m2));
   }
 }
 
